@@ -83,6 +83,9 @@ def run(res):
     n_rand = 2 if quick else 40
     n_mal = 60 if quick else 2000
     n_psbt = 150 if quick else 6000
+    # (the generated Rust is written again right before the build: runs of other checks against seeded
+    # trees put the committed copies of the generated files back when they finish)
+    gen_wire.generate(lib.REPO, only_rust=True)
     msgs = lib.run_harness("wire", "msgs", res.seed, n_rand, res.tier)
     mal = lib.run_harness("wire", "malformed", res.seed, n_mal, res.tier)
     psbt = lib.run_harness("wire", "psbt", res.seed, n_psbt, res.tier)
